@@ -49,6 +49,7 @@ class PropertyRun:
         self.seed = seed
         self.t0 = time.time()
         self.obligations = []       # Obligation
+        self.records = []           # solved obligations (dicts), incl. those from parallel sub-runs
         self.grounds = []           # Ground
         self.functions = {}         # fullname -> sha
         self.inlined = set()
@@ -73,6 +74,20 @@ class PropertyRun:
             for callee, how in ctx.calls:
                 if how == 'inlined':
                     self.inlined.add(callee)
+
+    def explore(self, ex, thunk, what, **kw):
+        """run_paths with 'function left the supported subset' turned into an undecided entry."""
+        from .values import Unsupported
+        try:
+            paths = ex.run_paths(thunk, **kw)
+        except Unsupported as e:
+            self.unsupported(what, e)
+            return []
+        except RecursionError as e:
+            self.unsupported(what, 'recursion limit: %s' % e)
+            return []
+        self.add_paths(paths)
+        return paths
 
     def add(self, ob):
         if isinstance(ob, Ground):
@@ -110,6 +125,54 @@ class PropertyRun:
         except subprocess.TimeoutExpired:
             return 2, 'replay timed out'
 
+    # ------------------------------------------------------------ parallel sub-runs
+    def parallel(self, tasks, workers=16):
+        """tasks: list of (function, args).  Each runs function(sub_run, repo, *args) in a forked
+        worker that explores AND discharges its own obligations; records come back here."""
+        import multiprocessing as mp
+        from concurrent.futures import ProcessPoolExecutor
+        jobs = [(self.pid, self.tier, self.seed, f.__module__, f.__name__, a) for f, a in tasks]
+        if not jobs:
+            return
+        with ProcessPoolExecutor(max_workers=min(workers, len(jobs)), mp_context=mp.get_context('fork')) as pool:
+            for res in pool.map(_sub_run, jobs):
+                self.merge(res)
+
+    def merge(self, res):
+        self.records.extend(res['records'])
+        self.grounds.extend(Ground(**g) for g in res['grounds'])
+        self.functions.update(res['functions'])
+        self.inlined.update(res['inlined'])
+        self.undecided.extend(res['undecided'])
+        self.notes.extend(res['notes'])
+        self.samples.extend(res['samples'])
+        for a in res['assumptions']:
+            if a not in self.assumptions:
+                self.assumptions.append(a)
+        self.bounded.extend(res['bounded'])
+
+    def export(self, timeout_ms):
+        discharge(self.obligations, timeout_ms=timeout_ms, workers=1)
+        return {'records': [self._record(o) for o in self.obligations] + self.records,
+                'grounds': [dict(name=g.name, ok=g.ok, detail=g.detail, kind=g.kind, backend=g.backend,
+                                 witness=g.witness, replay=g.replay) for g in self.grounds],
+                'functions': self.functions, 'inlined': sorted(self.inlined), 'undecided': self.undecided,
+                'notes': self.notes, 'samples': self.samples[:4], 'assumptions': self.assumptions,
+                'bounded': self.bounded}
+
+    @staticmethod
+    def _record(ob):
+        rec = {'name': ob.name, 'kind': ob.kind, 'status': ob.status, 'backend': ob.backend,
+               'seconds': ob.seconds, 'model': ob.model, 'expect': ob.meta.get('expect'),
+               'exact': ob.meta.get('exact', True), 'goal': (_short(ob.goal) if ob.status == 'refuted' else ''), 'script': None,
+               'has_builder': ob.meta.get('replay') is not None}
+        if ob.status == 'refuted' and ob.meta.get('replay') is not None:
+            try:
+                rec['script'] = ob.meta['replay'](ob.model)
+            except Exception as e:
+                rec['replay_error'] = repr(e)
+        return rec
+
     def finish(self, timeout_ms=None, workers=None):
         try:
             return self._finish(timeout_ms, workers)
@@ -122,31 +185,32 @@ class PropertyRun:
         if timeout_ms is None:
             timeout_ms = 30000 if self.tier == 'quick' else 120000
         discharge(self.obligations, timeout_ms=timeout_ms, workers=workers)
+        self.records = [self._record(o) for o in self.obligations] + self.records
         known = self.known_findings()
-        n_ob = len(self.obligations) + len(self.grounds)
+        n_ob = len(self.records) + len(self.grounds)
         if n_ob == 0:
             print('CHECKER-CRASH property=%s zero obligations generated (vacuity guard)' % self.pid)
             return 3
         discharged = 0
         solver_s = 0.0
         backends = {}
-        for ob in self.obligations:
-            solver_s += ob.seconds
-            backends[ob.backend] = backends.get(ob.backend, 0) + 1
-            if ob.meta.get('expect') == 'refuted':
+        for ob in self.records:
+            solver_s += ob['seconds'] or 0.0
+            backends[ob['backend']] = backends.get(ob['backend'], 0) + 1
+            if ob.get('expect') == 'refuted':
                 # vacuity guard: a deliberately false post must be refuted
-                if ob.status == 'refuted':
+                if ob['status'] == 'refuted':
                     discharged += 1
-                elif ob.status == 'proved':
-                    print('CHECKER-CRASH property=%s vacuity guard %s was PROVED: contradictory hypotheses' % (self.pid, ob.name))
+                elif ob['status'] == 'proved':
+                    print('CHECKER-CRASH property=%s vacuity guard %s was PROVED: contradictory hypotheses' % (self.pid, ob['name']))
                     return 3
                 else:
-                    self.undecided.append({'obligation': ob.name, 'reason': 'vacuity guard undecided'})
+                    self.undecided.append({'obligation': ob['name'], 'reason': 'vacuity guard undecided'})
                 continue
-            if ob.status == 'proved':
+            if ob['status'] == 'proved':
                 discharged += 1
-            elif ob.status == 'unknown':
-                self.undecided.append({'obligation': ob.name, 'reason': 'solver unknown/timeout (%s, %.1fs)' % (ob.backend, ob.seconds)})
+            elif ob['status'] == 'unknown':
+                self.undecided.append({'obligation': ob['name'], 'reason': 'solver unknown/timeout (%s, %.1fs)' % (ob['backend'], ob['seconds'])})
             else:
                 self._handle_refuted(ob, known)
         for g in self.grounds:
@@ -175,13 +239,13 @@ class PropertyRun:
             'functions_under_contract': self.functions,
             'functions_inlined_into_callers': sorted(self.inlined),
             'undecided': self.undecided,
-            'obligation_list': ([{'name': o.name, 'kind': o.kind, 'status': o.status, 'backend': o.backend,
-                                  'seconds': round(o.seconds, 2)} for o in self.obligations] +
+            'obligation_list': ([{'name': o['name'], 'kind': o['kind'], 'status': o['status'], 'backend': o['backend'],
+                                  'seconds': round(o['seconds'] or 0, 2)} for o in self.records] +
                                 [{'name': g.name, 'kind': g.kind, 'status': 'proved' if g.ok else 'refuted',
                                   'backend': g.backend, 'detail': g.detail[:300]} for g in self.grounds]),
             'bounded_stand_ins': [{k: v for k, v in b.items() if k != 'violations'} for b in self.bounded],
             'known_findings_reported': self.known_hits,
-            'samples': self.samples[:8] or [o.name for o in self.obligations[:5]] + [g.name for g in self.grounds[:5]],
+            'samples': self.samples[:8] or [o['name'] for o in self.records[:5]] + [g.name for g in self.grounds[:5]],
             'explanation': explanation or 'all obligations are VC/FRAME/GROUND obligations generated from the working tree',
             'notes': self.notes,
         }
@@ -222,42 +286,34 @@ class PropertyRun:
         return None
 
     def _handle_refuted(self, ob, known):
-        k = self._known_match(known, ob.name)
-        payload = {'property': self.pid, 'obligation': ob.name, 'kind': ob.kind,
-                   'solver': ob.backend, 'model': ob.model, 'goal': str(ob.goal)[:2000]}
-        builder = ob.meta.get('replay')
+        name = ob['name']
+        k = self._known_match(known, name)
+        payload = {'property': self.pid, 'obligation': name, 'kind': ob['kind'],
+                   'solver': ob['backend'], 'model': ob['model'], 'goal': ob['goal']}
         reproduced = None
-        if builder is not None:
-            try:
-                script = builder(ob.model)
-            except Exception as e:      # model does not determine a concrete input
-                script = None
-                payload['replay_error'] = repr(e)
-            if script:
-                rc, out = self.run_replay_script(script)
-                payload['replay_script'] = script
-                payload['replay_output'] = out
-                reproduced = (rc == 1)
-                payload['reproduced_on_real_code'] = reproduced
+        if ob.get('replay_error'):
+            payload['replay_error'] = ob['replay_error']
+        if ob.get('script'):
+            rc, out = self.run_replay_script(ob['script'])
+            payload['replay_script'] = ob['script']
+            payload['replay_output'] = out
+            reproduced = (rc == 1)
+            payload['reproduced_on_real_code'] = reproduced
         if k is not None:
-            self.known_hits.append('%s [%s]' % (k.get('what', ob.name), ob.name))
+            self.known_hits.append('%s [%s]' % (k.get('what', name), name))
             return
         if reproduced:
-            path = self._replay_path(ob.name, payload)
+            path = self._replay_path(name, payload)
             json.dump(payload, open(path, 'w'), indent=1, default=str)
-            self.violations.append((ob.name, path, True))
-        elif ob.kind == 'top' and ob.meta.get('exact', True) and builder is None:
-            path = self._replay_path(ob.name, payload)
+            self.violations.append((name, path, True))
+        elif ob['kind'] == 'top' and ob.get('exact', True):
+            # exact top-level obligation refuted; no input that fails on the real code was obtained
+            # (no replay builder, or the model lives in the abstraction only)
+            path = self._replay_path(name, payload)
             json.dump(payload, open(path, 'w'), indent=1, default=str)
-            self.violations.append((ob.name, path, False))
-        elif ob.kind == 'top' and reproduced is False and ob.meta.get('exact', True):
-            # exact top-level obligation refuted, model did not replay (float-only corner or
-            # model of an abstraction): report with the required suffix
-            path = self._replay_path(ob.name, payload)
-            json.dump(payload, open(path, 'w'), indent=1, default=str)
-            self.violations.append((ob.name, path, False))
+            self.violations.append((name, path, False))
         else:
-            self.undecided.append({'obligation': ob.name,
+            self.undecided.append({'obligation': name,
                                    'reason': 'auxiliary obligation refuted by solver; model did not reproduce a '
                                              'top-level contract violation on the real code'})
 
@@ -293,6 +349,14 @@ class PropertyRun:
         self.violations.append((b['name'], path, True))
 
 
+def _short(e):
+    try:
+        z3.set_option(max_depth=12, max_args=12, max_lines=40)
+        return str(e)[:1500]
+    except Exception:
+        return '<goal>'
+
+
 def replay_file(path):
     """./check --replay <file>: re-run the stored script on the current tree."""
     d = json.load(open(path))
@@ -306,3 +370,19 @@ def replay_file(path):
     p = subprocess.run([VENV_PY, '-c', script], env=env, cwd=VERIF)
     print('replay exit code %d (1 = violation reproduced)' % p.returncode)
     return p.returncode
+
+
+def _sub_run(job):
+    pid, tier, seed, modname, fname, args = job
+    import importlib
+    from .loader import Repo
+    sub = PropertyRun(pid, tier, seed)
+    try:
+        mod = importlib.import_module(modname)
+        getattr(mod, fname)(sub, Repo(), *args)
+        return sub.export(30000 if tier == 'quick' else 120000)
+    except Exception as e:
+        import traceback
+        sub.undecided.append({'obligation': '%s%r' % (fname, args), 'reason': 'worker crashed: %s' % traceback.format_exc()[-600:]})
+        sub.obligations = []
+        return sub.export(1000)
